@@ -550,7 +550,7 @@ impl<'t> Gen<'t> {
                 let t = *self.rng.pick(&[Ty::Int, Ty::Int, Ty::Big]);
                 let lhs = match self.col(scope, t, false) {
                     Some(c) => c,
-                    None => self.leaf(scope, t),
+                    None => return self.bool_expr(scope, 0, false),
                 };
                 let q = self.subquery_rows(scope, Some(t), dd);
                 Expr::Subq { kind: SubqKind::In { lhs: Box::new(lhs), neg: self.rng.chance(1, 2) }, q: Box::new(q), ty: Ty::Bool }
@@ -559,7 +559,7 @@ impl<'t> Gen<'t> {
                 let t = *self.rng.pick(&[Ty::Int, Ty::Int, Ty::Big, Ty::Dbl]);
                 let lhs = match self.col(scope, t, false) {
                     Some(c) => c,
-                    None => self.leaf(scope, t),
+                    None => return self.bool_expr(scope, 0, false),
                 };
                 let q = self.subquery_rows(scope, Some(t), dd);
                 let op = *self.rng.pick(&[BinOp::Eq, BinOp::Ne, BinOp::Lt, BinOp::Le, BinOp::Gt, BinOp::Ge]);
@@ -842,7 +842,9 @@ impl<'t> Gen<'t> {
                     }
                     e
                 };
-                if !keys.contains(&k) {
+                // style-insensitive duplicate check (ROLLUP (a, "a") is the same key twice)
+                let norm = |e: &Expr| -> String { super::print::expr(e).replace('"', "") };
+                if !keys.iter().any(|x| norm(x) == norm(&k)) {
                     keys.push(k);
                 }
             }
